@@ -1127,7 +1127,22 @@ impl Harness for HttpSys {
             obs.sort_by_key(|o| o.inv);
             let mut per_torrent: BTreeMap<(Fam, u8), Vec<Lop>> = BTreeMap::new();
             let mut ri = 0;
+            let mut ti = 0;
             for o in obs {
+                // from the moment a reload may have been applied, torrents whose permission it changes are unpredictable
+                // (the next cleaning pass removes the ones it forbids) - also for requests inside the reload's window
+                while ti < reloads.len() && reloads[ti].0 <= o.t_sent_ns + 50_000_000 {
+                    if let (Some(l), true) = (&reloads[ti].1, scn.access_mode != 0) {
+                        let base: BTreeSet<H20> = if ti == 0 { scn.access_list.iter().map(|t| info_hash(*t)).collect() } else { reloads[..ti].iter().rev().find_map(|r| r.1.clone()).unwrap_or_else(|| scn.access_list.iter().map(|t| info_hash(*t)).collect()) };
+                        for t in 0..8u8 {
+                            if allowed(&base, &info_hash(t)) != allowed(l, &info_hash(t)) {
+                                tainted.insert((Fam::V4, t));
+                                tainted.insert((Fam::V6, t));
+                            }
+                        }
+                    }
+                    ti += 1;
+                }
                 while ri < reloads.len() && reloads[ri].0 + 200_000_000 < o.t_sent_ns {
                     if let Some(l) = &reloads[ri].1 {
                         if scn.access_mode != 0 {
